@@ -100,7 +100,7 @@ def check(repo, res, fq, sink_desc, sink_pred, guards):
 
 def run(repo):
     res = RuleResult(RULE, 'typestate of adaptation declarations', TEXT)
-    res.floor = 9
+    res.floor = 11
 
     def store_into(field):
         def p(node):
@@ -190,4 +190,34 @@ def run(repo):
                          'a slice\'s affadapt must write the dependency mask back to the parent variable on '
                          'every normal exit; otherwise the first adaptation declared through a slice is lost',
                          repo.where(fa), P))
+    # (e) a slice shares the declaration state of its parent by reference.  DecVarSub.affadapt validates and writes
+    #     self.rand_adapt and hands it back to the parent; the parent's mask is what rule_var reads.  Two slices of
+    #     one decision therefore have to hold the *same* mask object as the parent (and the same event list), or a
+    #     declaration made through one slice is invisible to -- and later overwritten by -- the other.
+    from rsx.access import access as _access
+    init = repo.func('lp.DecVarSub.__init__')
+    res.functions.add(init.fq)
+    fa = _access(repo, init)
+    parent = init.params[2] if len(init.params) > 2 else None
+    for field in ('rand_adapt', 'event_adapt'):
+        stores = [n for n in walk_no_nested(init.node) if isinstance(n, ast.Assign) and
+                  any(ntext(t) == 'self.' + field for t in n.targets)]
+        # (a store of the constant None -- the arm of `x if x is not None else None` -- shares nothing and is not judged)
+        stores = [n for n in stores if not (isinstance(n.value, ast.Constant) and n.value.value is None)]
+        if not stores or parent is None:
+            raise AnalysisError('lp.DecVarSub.__init__: the assignment of self.%s was not found' % field)
+        org = set()
+        for st_ in stores:
+            org |= fa.origins(st_.value)
+        shared = org == {('param:' + parent, field)}
+        if not shared and not any(o[0] in ('fresh',) or o[0].startswith(('param:', 'call:')) for o in org):
+            raise AnalysisError('lp.DecVarSub.__init__: origin of self.%s (%s) not interpreted' % (field, sorted(org)))
+        res.inst({'slice shares with parent': field, 'origins': sorted('.'.join(map(str, o)) for o in org),
+                  'ok': shared}, shared)
+        if not shared:
+            res.fail(Finding(RULE, init.fq, 'slice state self.%s is the parent\'s object' % field,
+                             'lp.DecVarSub.__init__ binds self.%s to `%s`, which is not (only) the parent\'s own '
+                             'object %s.%s: declarations made through one slice are not seen by another slice of '
+                             'the same decision and are lost when that one writes its stale copy back'
+                             % (field, ntext(stores[0].value)[:50], parent, field), repo.where(init, stores[0]), P))
     return res
